@@ -463,11 +463,15 @@ def run(case):
                 if not lown or len(lown) == len(nv):
                     continue
                 res = []
-                for kwx in ({"elements_to_ignore_percentile": pct}, {"elements_to_ignore": list(lown)}):
-                    o = drivers.observe(dict(ntw, cls="kMinPathErrorCycles", kw=dict(kwx, k=2, weight_type="int", flow_attr_origin="node")))
+                # (third run: the original arcs carry the attribute too, value 0 - in node mode they are ignored and must not enter the percentile)
+                stray = dict(ntw, arcs=[[a_[0], a_[1], 0] for a_ in ntw["arcs"]])
+                for gin, kwx in ((ntw, {"elements_to_ignore_percentile": pct}), (ntw, {"elements_to_ignore": list(lown)}), (stray, {"elements_to_ignore_percentile": pct})):
+                    o = drivers.observe(dict(gin, cls="kMinPathErrorCycles", kw=dict(kwx, k=2, weight_type="int", flow_attr_origin="node")))
                     res.append(("exc", o["exc_type"], (o["exc"] or "")[:80]) if o["exc"] else (("solved", round(float(o["obj"]), 5)) if o["solved"] else ("unsolved",)))
                 tags["ignore_percentile_node"] += 1
-                if res[0] != res[1]:
+                if res[2] != res[0]:
+                    viol.append({"kind": "ignore_percentile_differs", "msg": f"kMinPathErrorCycles (node mode) on node values {nv}: elements_to_ignore_percentile={pct} gives {res[0]}, but {res[2]} when the (ignored) original arcs carry the attribute with value 0"})
+                elif res[0] != res[1]:
                     viol.append({"kind": "ignore_percentile_differs", "msg": f"kMinPathErrorCycles (node mode) on node values {nv}: elements_to_ignore_percentile={pct} gives {res[0]}, ignoring {lown} explicitly gives {res[1]}"})
                 elif res[0][0] == "solved":
                     nt.append(f"{key}|node_pct{pct}")
